@@ -59,6 +59,21 @@ def unit_probe(rng, acc):
     for t in probes[:3]:
         if list(st.get_assets(t)) != assets:
             raise core.Violation(PROP, 'static-universe', 'StaticUniverse returned %s for %s' % (st.get_assets(t), assets), {})
+    if rng.random() < 0.2:
+        # signals built on the static universe, seeded by hand with prices (also for a reference asset that is not a
+        # member): the universe keeps yielding its configured list
+        from qstrader.signals.momentum import MomentumSignal
+        from qstrader.signals.sma import SMASignal
+        sig = rng.choice([SMASignal, MomentumSignal])(base, st, lookbacks=[rng.randint(1, 5)])
+        for a in rng.sample(assets, min(2, len(assets))) + ['EQ:BENCH']:
+            sig.append(a, rng.uniform(5, 50))
+        if rng.random() < 0.5:
+            sig.update_assets(base)
+        for t in probes[:3]:
+            if list(st.get_assets(t)) != assets:
+                raise core.Violation(PROP, 'static-universe/after-signal-append', 'StaticUniverse configured with %s returns %s '
+                                     'after prices were appended to a signal built on it' % (assets, st.get_assets(t)), {})
+        acc.count('C19:static_universe_after_signal_appends')
     k = rng.randint(1, 12)
     w = {'EQ:W%d' % i: rng.choice([0.0, 1.0, -0.5, rng.uniform(-2, 2)]) for i in range(k)}
     if rng.random() < 0.25:
